@@ -1274,14 +1274,14 @@ theorem step_send (ord) (m : Sys) (sp : SpecSt) (T : Int) (data : Bytes) (waits 
       rw [callsObs_run hrun rfl]
       have h1 : specStep sp (.api .send (some T)) = .ok { sp with ep := some { ep with recvOp := false, callT := some T, spent := 0 } } := by
         simp [specStep, hep]
-      simp only [List.singleton_append, List.cons_append, List.append_assoc, List.nil_append, specRun, h1]
+      simp only [List.cons_append, List.append_assoc, List.nil_append, specRun, h1]
       refine (specRun_log T l { sp with ep := some { ep with recvOp := false, callT := some T, spent := 0 } }
         { ep with recvOp := false, callT := some T, spent := 0 } _ rfl rfl hlog).trans ?_
       cases hx : (sendT Script.world (arm m.x.w waits sends) data T).exn with
       | none => simp [specRun, specStep, retOf]
       | some e =>
         have := hnl e hx
-        cases hk : sp.kill <;> simp [specRun, specStep, retOf, this, hk]
+        cases hk : sp.kill <;> simp [specRun, specStep, retOf, this]
     · refine ⟨⟨_, rfl, he1, he2, rfl, he4⟩, hR.spay, hR.kill, hR.pre, hR.ord, ?_, hR.destroyed, hR.enqs, hR.live, hR.futs⟩
       intro h
       have h' : (m.threw || (m.killed.isSome && (sendT Script.world (arm m.x.w waits sends) data T).exn.isSome)) = true := h
@@ -1371,7 +1371,7 @@ theorem specRun_recv (sp : SpecSt) (ep : EpSt) (T : Int) (r : Bool) (threw : Boo
   simp only [specRun, h1, h2]
   cases threw
   · simp [specStep]
-  · cases hk : sp.kill <;> simp [specStep, hk]
+  · cases hk : sp.kill <;> simp [specStep]
 
 /-- `ReceiveNow` against the scripted kernel -/
 theorem recvNow_script (w : Script) (n : Nat) :
@@ -2229,7 +2229,6 @@ theorem final_core (ord) (m : Sys) (sp : SpecSt) (hR : Rel m sp) (hg : sp.got = 
           obtain ⟨k, p, hkk, hno⟩ := hI.lossyK hlo
           rw [hk] at hkk
           cases hkk
-          simp only [orderly, Bool.or_eq_true, decide_eq_true_eq, Bool.and_eq_true] at hno
           exact absurd hO (by simpa [orderly] using hno)
       have hrec0 : m.x.w.recvs = [] := by
         cases ha : m.async with
@@ -2261,7 +2260,7 @@ theorem final_core (ord) (m : Sys) (sp : SpecSt) (hR : Rel m sp) (hg : sp.got = 
       have hl0 := hl hnl
       rw [hrec0, hl0] at hs
       have := congrArg List.length hs
-      simp only [List.length_take, dataOf, List.append_nil, List.length_append, List.length_nil] at this
+      simp only [List.length_take, dataOf, List.append_nil] at this
       have := hI.psent
       rw [hg, hp]
       omega
@@ -2317,5 +2316,65 @@ theorem model_passes_check (async : Bool) (rsz : Nat) (ppay : Bytes) (history : 
     (h : histOk async rsz ppay history = true) : specCheck (modelTrace async rsz ppay history) = .ok () := by
   obtain ⟨s, hs, hf⟩ := model_satisfies_spec async rsz ppay history h
   simp [specCheck, hs, hf]
+
+
+/-! ### examples: the hypothesis is satisfiable, the predicate rejects bad traces, each assumption is needed -/
+
+def rejects (t : List Obs) : Bool :=
+  match specCheck t with
+  | .ok _ => false
+  | .error _ => true
+
+/-- synchronous socket: transfer in both directions with a short write and a failed `send`, the peer closes after
+having read everything, three `Receive`s drain the two pending segments and report the closure, two more `Send`s -/
+def demoSync : List Op :=
+  [.psend 3, .send 0 [1, 2, 3] [⟨true, 0⟩] [.accept 2], .recv 30 [⟨true, 5⟩], .psend 10, .recv 0 [⟨false, 0⟩],
+   .send 0 [3] [] [.fail 104], .pre 2, .kill .close 2 none [.accept 1], .after [.r, .s] 3000000,
+   .recv 0 [], .recv 0 [], .recv 0 [], .send 0 [9, 9] [] [], .send 0 [9] [] []]
+
+/-- asynchronous socket: partial and failed driver sends, a reset that discards everything unread, buffers enqueued
+before and after the disconnect, destruction with three promises still queued -/
+def demoAsync : List Op :=
+  [.enq [1, 2, 3], .psend 4, .step { wr := true } [.accept 2], .step { rd := true, wr := true } [], .step { wr := true } [.fail 32],
+   .psend 2, .enq [7], .pre 3, .kill .rst 0 (some (0, 104)) [], .after [.s] 0, .enq [8, 8],
+   .step { rd := true, hupErr := true } [], .step { rd := true } [], .enq [5], .destroy]
+
+example : histOk false 4 [1, 2, 3, 4, 5, 6, 7, 8] demoSync = true := by decide
+example : histOk true 4 [1, 2, 3, 4, 5, 6, 7, 8] demoAsync = true := by decide
+example : specCheck (modelTrace false 4 [1, 2, 3, 4, 5, 6, 7, 8] demoSync) = .ok () :=
+  model_passes_check _ _ _ _ (by decide)
+example : specCheck (modelTrace true 4 [1, 2, 3, 4, 5, 6, 7, 8] demoAsync) = .ok () :=
+  model_passes_check _ _ _ _ (by decide)
+example : (modelTrace true 4 [1, 2, 3, 4, 5, 6, 7, 8] demoAsync).length = 20 := by decide
+
+/-- the seeded changes C15_agentC / C15_r4_agentJ (SendTry without MSG_NOSIGNAL) -/
+example : rejects [.setup false false, .payload [], .api .send (some 0), .send "x" false, .ret .returned, .got [], .state 0] = true := by
+  decide
+/-- death by SIGPIPE -/
+example : rejects [.setup false false, .payload [], .kill .rst 0, .api .send (some 0), .abort .killed "signal 13 SIGPIPE"] = true := by
+  decide
+/-- `recv == 0` mapped to a 0-byte success: `Receive` never reports the closure -/
+example : rejects [.setup false false, .payload [1, 2], .pre 0, .kill .close 0, .after [.r] 0,
+    .api .recv (some 0), .poll 0 true, .ret .returned, .got [1, 2], .state 2] = true := by decide
+/-- a closure reported before the data the peer had sent was delivered -/
+example : rejects [.setup false false, .payload [1, 2], .pre 0, .kill .shutwr 0, .after [.r] 0,
+    .api .recv (some 0), .poll 0 true, .ret (.threw false false), .got [1], .state 2] = true := by decide
+/-- the send error swallowed: the promise is abandoned while the socket is alive -/
+example : rejects [.setup true false, .payload [], .enq, .kill .rst 0, .send "x" true, .fut 0 .broken] = true := by decide
+/-- an unlimited `Send` that polls with a bounded timeout -/
+example : rejects [.setup false false, .payload [], .api .send (some (-1)), .poll 30 false] = true := by decide
+
+/-- the assumptions are needed.  A kernel that accepts 0 bytes of a non-empty buffer makes the model (like the code)
+throw `std::logic_error`: -/
+example : histOk false 4 [] [.send 0 [1] [] [.accept 0]] = false ∧
+    rejects (modelTrace false 4 [] [.send 0 [1] [] [.accept 0]]) = true := by decide
+/-- K1: if `poll` reported HUP without POLLIN while a segment is unread, the driver would call the disconnect handler
+at once (driver_impl.cpp: HUP|ERR without POLLIN goes to `onError`) and the segment would be lost: -/
+example : histOk true 4 [1, 2] [.psend 2, .kill .shutwr 0 none [], .after [.r] 0, .step { hupErr := true } [], .step { rd := true } []] = false ∧
+    rejects (modelTrace true 4 [1, 2] [.psend 2, .kill .shutwr 0 none [], .after [.r] 0, .step { hupErr := true } [], .step { rd := true } []]) = true := by
+  decide
+/-- a scenario that stops before the failure can be reported is not a trace of a finished case: -/
+example : histOk false 4 [1, 2] [.psend 2, .kill .close 0 none [], .after [.r] 0, .recv 0 []] = false ∧
+    rejects (modelTrace false 4 [1, 2] [.psend 2, .kill .close 0 none [], .after [.r] 0, .recv 0 []]) = true := by decide
 
 end SockModel.PeerFail.Spec
